@@ -9,6 +9,21 @@ VERIF = os.path.dirname(os.path.dirname(os.path.abspath(__file__)))
 TECH = "static analysis over rustc MIR/HIR facts (custom rustc_private driver): "
 
 CLAIMED = {
+    "C01": dict(
+        technique=TECH + "strict-guard dominance with per-iteration freshness on pointer follow sites, "
+        "bounded-progress guard on every CFG cycle of the name walkers, post-dominating count writes in the "
+        "section iterators, sub-parser dataflow identity, typestate who-may-construct/write audit, interval "
+        "check of validator guards, wire-rooted narrow-overflow and explicit-panic reachability audit",
+        text="Decides structural necessary conditions of C01: every compression pointer that becomes a read "
+        "position is strictly backward-guarded against the current position on every iteration (or lies in a "
+        "typestate-trusting function whose constructors are restricted); every loop of the name walkers passes "
+        "a bounded-progress guard; section iterators fuse; record data is parsed from an RDLENGTH-limited "
+        "sub-parser with a dominating trailing-data check; the NSEC window validator admits only what the "
+        "unchecked iterator can read; no unguarded narrow arithmetic on header counts; no explicit panic macro "
+        "under a wire-derived branch and no unaudited unwrap of a parse result in 890+ bodies reachable from "
+        "the read-side API. Absence of all panics and termination of every rdata parser are not decided.",
+        design_ref="DESIGN.md §4 C01",
+    ),
     "C02": dict(
         technique=TECH + "CFG dominance / must-pass-through (rollback on error, shim post-domination), "
         "bound-guard dataflow on stored compression positions, sibling/section tables",
@@ -135,7 +150,7 @@ def main():
         print("MANIFEST.json written (jsonschema not available in this interpreter)")
 
 
-SOURCE_COMMITS = ["6d017b8", "5bee0e2"]
+SOURCE_COMMITS = ["6d017b8", "5bee0e2", "d442263", "1972f03", "e564cac"]
 
 if __name__ == "__main__":
     main()
